@@ -200,6 +200,38 @@ def shrink(ctx, binp, case, kinds, rel, rounds=40):
         return case
     cur = case
     sdir = os.path.join(ctx.work, "gated-shrink")
+
+    def still_fails(cands):
+        """the first candidate (in the order given) that still shows one of [kinds], or None"""
+        os.makedirs(sdir, exist_ok=True)
+        corpus = os.path.join(sdir, "cands.jsonl")
+        open(corpus, "w").write("\n".join(json.dumps(c) for c in cands) + "\n")
+        summ, cases, _ = _run_driver(ctx, binp, sdir, ["-modes", "", "-corpus", corpus], "gatedh (shrinking)")
+        if summ is None:
+            return None
+        by_case, _, failures = _evaluate(ctx, summ, rel)
+        for cid in sorted(by_case):
+            if any(k in kinds for _, _, k in by_case[cid]):
+                return cases[cid]
+        return None
+
+    # long histories first lose their tail: a handful of prefixes per round (never one candidate per op of a 1000-op history)
+    for _ in range(12):
+        n = len(cur["ops"])
+        if n <= 40:
+            break
+        cands = []
+        for k in sorted(set([n // 8, n // 4, n // 2, (3 * n) // 4, (7 * n) // 8, n - 8, n - 2])):
+            if 1 <= k < n:
+                c = dict(cur)
+                c["ops"] = cur["ops"][:k]
+                cands.append(c)
+        hit = still_fails(cands)
+        if hit is None:
+            break
+        cur = hit
+    if len(cur["ops"]) > 80:
+        return cur          # still long: leave it (one candidate per op would cost minutes)
     for _ in range(rounds):
         ops = cur["ops"]
         if len(ops) <= 2:
@@ -209,18 +241,7 @@ def shrink(ctx, binp, case, kinds, rel, rounds=40):
             c = dict(cur)
             c["ops"] = ops[:i] + ops[i + 1:]
             cands.append(c)
-        os.makedirs(sdir, exist_ok=True)
-        corpus = os.path.join(sdir, "cands.jsonl")
-        open(corpus, "w").write("\n".join(json.dumps(c) for c in cands) + "\n")
-        summ, cases, _ = _run_driver(ctx, binp, sdir, ["-modes", "", "-corpus", corpus], "gatedh (shrinking)")
-        if summ is None:
-            break
-        by_case, _, failures = _evaluate(ctx, summ, rel)
-        hit = None
-        for cid in sorted(by_case):
-            if any(k in kinds for _, _, k in by_case[cid]):
-                hit = cases[cid]
-                break
+        hit = still_fails(cands)
         if hit is None:
             break
         cur = hit
